@@ -405,6 +405,54 @@ def find_arm(toks, br, lo, hi, pattern, occurrence=0):
     -> (pat_start, arrow_index(of '='), body_start, body_end, is_block)"""
     pt = [t.text for t in tokenize(pattern)]
     n = len(pt)
+    r = _find_arm_exact(toks, br, lo, hi, pt, n, occurrence)
+    if r is not None:
+        return r
+    # the pattern may be ONE ALTERNATIVE of an or-pattern (`'x' | 'X' =>`): match it as a `|`-separated component of the arm's pattern
+    found = 0
+    i = lo
+    while i + n < hi:
+        if [t.text for t in toks[i:i + n]] == pt:
+            prev = toks[i - 1].text if i > 0 else '{'
+            nxt = toks[i + n].text
+            if prev in ('{', ',', '}', ']', '|') and nxt in ('|', '='):
+                # walk to the arrow of this arm
+                k = i + n
+                ok = True
+                while k + 1 < hi and not (toks[k].text == '=' and toks[k + 1].text == '>' and toks[k + 1].s == toks[k].e):
+                    if toks[k].kind == 'p' and toks[k].text in OPEN:
+                        k = br[k]
+                    elif toks[k].kind == 'p' and toks[k].text in (',', ';', '{', '}'):
+                        ok = False
+                        break
+                    k += 1
+                # and back to the start of the arm's pattern
+                j = i
+                while ok and toks[j - 1].text == '|':
+                    j -= 2
+                    while j > lo and toks[j - 1].text not in ('{', ',', '}', ']', '|'):
+                        j -= 1
+                if ok and k + 1 < hi and (prev == '|' or nxt == '|'):
+                    if found == occurrence:
+                        b = k + 2
+                        if toks[b].kind == 'p' and toks[b].text == '{':
+                            return (j, k, b, br[b] + 1, True)
+                        e = b
+                        while e < hi:
+                            tt = toks[e]
+                            if tt.kind == 'p' and tt.text in OPEN:
+                                e = br[e] + 1
+                                continue
+                            if tt.kind == 'p' and (tt.text == ',' or tt.text in CLOSE):
+                                break
+                            e += 1
+                        return (j, k, b, e, False)
+                    found += 1
+        i += 1
+    return None
+
+
+def _find_arm_exact(toks, br, lo, hi, pt, n, occurrence):
     found = 0
     i = lo
     while i + n + 1 < hi:
